@@ -857,7 +857,7 @@ func askPratt(model *Model, line string, skip int, fixSlice bool) (modelAns, err
 
 // precCodeHasSliceFix selects the model variant that mirrors /repo: false = parseSlice as it is
 // (closing bracket consumed with p.advance()), true = after proposed_fixes/C01-slice-rbracket-ws.diff.
-const precCodeHasSliceFix = false
+const precCodeHasSliceFix = true
 
 // Go error texts that come from type checking (not modelled by the untyped
 // Pratt model).  Used ONLY to set aside perturbed inputs on which the model has
@@ -1139,4 +1139,4 @@ func runC01prec(cfg Config, r *Result) {
 	}
 }
 
-func init() { register("C01prec", runC01prec) }
+func init() { register("C01prec", runC01prec) } // also driven from runC01
